@@ -1,3 +1,4 @@
+import re
 """Shared analysis of <VarlinkService as ConnectionHandler>::handle (C01, C02, C06)."""
 from vlib.cfg import Cfg, DefUse, Slice, enumerate_paths
 from vlib.cond import switch_cond, bool_edges, dominating_edges
@@ -27,7 +28,7 @@ def analyse_handle(cx):
     body = cx.mir.one("varlink", HANDLE)
     cx.saw(body)
     cfg = Cfg(body); du = DefUse(body)
-    h = HandleInfo(); h.body = body; h.cfg = cfg; h.du = du
+    h = HandleInfo(); h.body = body; h.cfg = cfg; h.du = du; h.cx = cx
     news = body.calls("std::io::BufReader::<R>::new")
     if len(news) != 1: raise AnchorMissing("handle: expected one inner BufReader::new, found %d" % len(news))
     h.inner = news[0].dest.l
@@ -69,6 +70,17 @@ def analyse_handle(cx):
     # len local(s): values derived from read_until's result
     return h
 
+def const_item_init(cx, src_dir, name):
+    """whitespace-free initialiser text of `const NAME: T = <init>;` in the crate's sources (named constants reach the MIR unevaluated)"""
+    import os, glob
+    for f in sorted(glob.glob(os.path.join(cx.repo, src_dir, "*.rs"))):
+        try: text = open(f, encoding="utf-8", errors="replace").read()
+        except OSError: continue
+        m = re.search(r"\bconst\s+%s\s*:[^=;]*=\s*([^;]+);" % re.escape(name), text)
+        if m: return re.sub(r"\s+", "", m.group(1))
+    return None
+
+
 def len_derived(h, op):
     """does operand derive (moves/copies/?-desugaring) from a read_until result"""
     sl = Slice(h.body, h.du)
@@ -99,6 +111,7 @@ def classify_edge(h, edge):
                 if promoted_value(h, o) == 0: zero = True
                 txt = str((o.const or {}).get("str") or (o.const or {}).get("dbg") or "")
                 if txt in ('b"\\0"', 'b"\\x00"'): zero = True
+                if re.fullmatch(r"[A-Za-z_][\w:]*", txt) and const_item_init(h.cx, "varlink/src", txt.split("::")[-1]) in ('b"\\0"', 'b"\\x00"', "&[0]", "&[0u8]", "&[b'\\0']", "[0]", "[0u8]"): zero = True
         if on_buf and zero:
             is_true = (edge[1] == t_edge[1] and edge[2] == t_edge[2])
             return None if is_true else "incomplete"
